@@ -4,6 +4,7 @@ import Driver.Guard
 import Driver.PtrCell
 import Driver.Dict
 import Driver.BlockAlloc
+import Driver.EventQueue
 
 def main (args : List String) : IO UInt32 := do
   match args with
@@ -13,4 +14,5 @@ def main (args : List String) : IO UInt32 := do
   | ["ptrcell"] => Driver.PtrCell.main; return 0
   | ["dict"] => Driver.Dict.main; return 0
   | ["blockalloc"] => Driver.BlockAlloc.main; return 0
+  | ["eventqueue"] => Driver.EventQueue.main; return 0
   | _ => IO.eprintln "usage: driver <area>"; return 2
